@@ -1108,4 +1108,63 @@ theorem sel3_chained_string (cls : Cls) (kvs : List (Str × Val)) (lead : Lead) 
     have hg' := sel2_api_get cls kvs xp _ valsT d fuel hq hpc htok ((hsp true).2 toks' name ht hname)
     exact ⟨hg'.1, hg'.2, sel3_api_first cls kvs xp _ valsF d fuel hq hpc htok ((hsp false).2 toks' name ht hname)⟩
 
+theorem sel3_filterMap_congr {α β : Type} {f g : α → Option β} : ∀ {l : List α}, (∀ x ∈ l, f x = g x) → l.filterMap f = l.filterMap g
+  | [], _ => rfl
+  | a :: l, h => by
+    have ih := sel3_filterMap_congr (l := l) (fun x hx => h x (List.mem_cons_of_mem _ hx))
+    simp [List.filterMap_cons, h a (by simp), ih]
+
+/-! ### the canonical path is one of the spellings -/
+
+def sel3StepsOf : Pos → List StepSp
+  | [] => []
+  | .key k :: r => .key k :: sel3StepsOf r
+  | .idx n :: r => .idx (.lit n) false :: sel3StepsOf r
+
+theorem sel3_stepsOf_render (p : Pos) : renderSteps (sel3StepsOf p) = renderPos p := by
+  induction p with
+  | nil => rfl
+  | cons s r ih =>
+    cases s with
+    | key k => rw [sel3StepsOf, renderSteps_cons, ih]; simp [renderStep, renderPos, renderSeg]
+    | idx n => rw [sel3StepsOf, renderSteps_cons, ih]; simp [renderStep, renderPos, renderSeg, IdxSp.text]
+
+theorem sel3_stepsOf_plain (p : Pos) (hp : PlainPos p) : PlainSteps (sel3StepsOf p) := by
+  induction p with
+  | nil => trivial
+  | cons s r ih =>
+    cases s with
+    | key k => exact ⟨hp.1, ih hp.2⟩
+    | idx n => exact ih hp
+
+theorem sel3_stepsOf_length (p : Pos) : (sel3StepsOf p).length = p.length := by
+  induction p with
+  | nil => rfl
+  | cons s r ih => cases s <;> simp [sel3StepsOf, ih]
+
+theorem sel3_stepsOf_get : ∀ (p : Pos) (v c : Val), getAt v p = some c → stepsGet v (sel3StepsOf p) = some c
+  | [], v, c, h => by simp [getAt] at h; subst h; simp [sel3StepsOf, stepsGet]
+  | .key k :: r, v, c, h => by
+    obtain ⟨x, hc, hr⟩ := getAt_cons_some h
+    obtain ⟨cls, kvs, rfl, hl⟩ := child_key_some hc
+    simp [sel3StepsOf, stepsGet, hl, sel3_stepsOf_get r x c hr]
+  | .idx n :: r, v, c, h => by
+    obtain ⟨y, hc2, hr2⟩ := getAt_cons_some h
+    obtain ⟨cls', xs, rfl, hx, hlt⟩ := child_idx_some hc2
+    simp [sel3StepsOf, stepsGet, pyIndex, IdxSp.val, normIdx_nat hlt, hx, sel3_stepsOf_get r y c hr2]
+
+/-- the canonical path `//a/b[0]…` of a position below a dict root is the spelling with prefix `//`, attached
+indexes written as plain numbers -/
+theorem sel3_stepsOf_canon (cls : Cls) (kvs : List (Str × Val)) (p : Pos) (c : Val) (hne : p ≠ [])
+    (hget : getAt (.dict cls kvs) p = some c) : renderSp .two (sel3StepsOf p) = slash ++ renderPos p := by
+  cases p with
+  | nil => exact absurd rfl hne
+  | cons s r =>
+    cases s with
+    | idx n => simp [getAt, child] at hget
+    | key k =>
+      unfold renderSp
+      rw [sel3_stepsOf_render]
+      simp [renderPos, renderSeg, dropSlash, leadStr, slash]
+
 end N0.XPath
